@@ -21,7 +21,7 @@ if os.path.exists(evlog):
 notes = open(os.path.join(d, "NOTES.md")).read() if os.path.exists(os.path.join(d, "NOTES.md")) else ""
 meta = {
     "id": sid, "property": prop,
-    "origin": "independent sub-agent (wave %s: property text, scratch worktree, one-line descriptions of earlier changes; brief: waves 7-8 a performance/memory optimisation PR; waves 9-10 a bug-fix, feature or refactoring PR; wave 11 needs scale, an unusual legal input representation, or a rarely used documented option; wave 12 shows only through a pipeline of three or more public operations on the same objects; waves 13-14: anything unlike all earlier changes; wave 15: a clause of the statement or a branch of the anchored code that no listed change touches)" % wave,
+    "origin": "independent sub-agent (wave %s: property text, scratch worktree, one-line descriptions of earlier changes; brief: waves 7-8 a performance/memory optimisation PR; waves 9-10 a bug-fix, feature or refactoring PR; wave 11 needs scale, an unusual legal input representation, or a rarely used documented option; wave 12 shows only through a pipeline of three or more public operations on the same objects; waves 13-14: anything unlike all earlier changes; waves 15-16: a clause of the statement or a branch of the anchored code that no listed change touches)" % wave,
     "change": change, "needs_to_manifest": needs,
     "confirmed": {"how": "tools/evalseed.sh (demo passes clean / fails patched; full baseline suite vs BASELINE stable_pass)", "result": result},
     "first_missed_by_the_check_of_the_time": bool(int(missed)),
